@@ -3,7 +3,7 @@ CONSTANTS
   Uni = {1, 2, 3, 4, 5}
   Bi = {11}
   Stalled = {1, 2, 3, 4}
-  Foreign = {}
+  ClassOf <- AllWT
   CapUniH3 = 4
   CapUniWT = 4
   CapBiH3 = 1
@@ -12,6 +12,7 @@ CONSTANTS
   Callers = {"a", "c"}
   Wants <- W2
   NDg = 1
+  MaxCancels = 2
   Causes = {}
 PROPERTIES AllHealthyDelivered
 CHECK_DEADLOCK FALSE
